@@ -41,6 +41,8 @@ var helpers = []helper{
 	{"c08_mutfield", []ddp.Param{{Name: "e", Type: "Eintrag"}, {Name: "v", Type: "Zahl"}}, "nichts", "Speichere v in werte von e an der Stelle 1."},
 	{"c08_mutref", []ddp.Param{{Name: "r", Type: "Text Referenz"}, {Name: "c", Type: "Buchstabe"}}, "nichts", "Speichere c in r an der Stelle 1."},
 	{"c08_mutlref", []ddp.Param{{Name: "r", Type: "Zahlen Listen Referenz"}, {Name: "v", Type: "Zahl"}}, "nichts", "Speichere v in r an der Stelle 1."},
+	{"c08_two", []ddp.Param{{Name: "a", Type: "Zahlen Referenz"}, {Name: "b", Type: "Zahlen Referenz"}, {Name: "v", Type: "Zahl"}}, "eine Zahl", "Speichere 1 in a.\n\tSpeichere v in b.\n\tGib a zurück."},
+	{"c08_twol", []ddp.Param{{Name: "a", Type: "Zahlen Listen Referenz"}, {Name: "b", Type: "Zahlen Listen Referenz"}, {Name: "v", Type: "Zahl"}}, "eine Zahl", "Speichere 1 in a an der Stelle 1.\n\tSpeichere v in b an der Stelle 1.\n\tGib a an der Stelle 1 zurück."},
 	{"c08_id", []ddp.Param{{Name: "t", Type: "Text"}}, "einen Text", "Gib t zurück."},
 	{"c08_valref", []ddp.Param{{Name: "v", Type: "Text"}, {Name: "r", Type: "Text Referenz"}, {Name: "c", Type: "Buchstabe"}}, "einen Text", "Speichere c in r an der Stelle 1.\n\tGib v zurück."},
 	{"c08_valrefl", []ddp.Param{{Name: "v", Type: "Zahlen Liste"}, {Name: "r", Type: "Zahlen Listen Referenz"}, {Name: "x", Type: "Zahl"}}, "eine Zahl", "Speichere x in r an der Stelle 1.\n\tGib v an der Stelle 1 zurück."},
@@ -95,6 +97,8 @@ var templates = []tmpl{
 	{"l_reference", "zahl", mkL + "c08_mutlref a v.\n\tGib a an der Stelle 1 zurück.", "written", true},
 	{"l_same_by_value_and_reference", "zahl", mkL + "Gib (c08_valrefl a a v) zurück.", "orig", true},
 	{"l_global_by_value", "zahl", "Speichere z0 in c08_globalliste an der Stelle 1.\n\tGib (c08_touchgloballiste c08_globalliste v) zurück.", "orig", true},
+	{"same_variable_as_two_references", "zahl", "Die Zahl x ist z0.\n\tGib (c08_two x x v) zurück.", "written", true},
+	{"same_list_as_two_references", "zahl", mkL + "Gib (c08_twol a a v) zurück.", "written", true},
 	{"l_foreach_mutcollection", "zahl", mkL + "Die Zahl s ist 0.\n\tFür jede Zahl e in a, mache:\n\t\tSpeichere v in a an der Stelle 2.\n\t\tSpeichere e in s.\n\tGib s zurück.", "last", false},
 }
 
@@ -395,4 +399,19 @@ func clipS(s string, n int) string {
 		return s[:n] + "..."
 	}
 	return s
+}
+
+// Spec describes a template for differential runs (C11).
+type Spec struct {
+	Name string
+	Kind string // "text" | "zahl"
+}
+
+// Specs returns the source and the template functions (all take z0, z1, c|v, i, w).
+func Specs() (string, []Spec) {
+	var out []Spec
+	for _, t := range templates {
+		out = append(out, Spec{Name: "c08_" + t.name, Kind: t.kind})
+	}
+	return source(), out
 }
